@@ -19,7 +19,7 @@ E(l) == CASE l = 0 -> "E0" [] l = 1 -> "E1" [] l = 2 -> "E2" [] l = 3 -> "E3" []
 Expr == "E12"
 
 \* ---- leaf pools (small and adversarial; the first entry is the default) ----
-IdPool     == << Same("a"), P("`b c`", "b c"), P("`from`", "from"), Same("Offset1") >>
+IdPool     == << Same("a"), P("`b c`", "b c"), P("`from`", "from"), Same("Offset1"), Same("date") >>   \* "date": spelled like a built-in type, still an identifier
 FieldPool  == << Same("f"), Same("all"), P("`x y`", "x y") >>       \* after '.': any identifier-like run is an identifier
 FuncPool   == << Same("fn"), Same("safe"), Same("IF1") >>
 IntPool    == << Same("1"), Same("0x1F"), Same("007") >>
@@ -51,8 +51,10 @@ TypeTmpls ==
   << Tmpl("ArrayType", <<T("ARRAY"), T("<"), N("Item", "Type"), T(">")>>),
      Tmpl("StructType", <<T("STRUCT"), T("<"), L("Fields", "StructField", ",", 0), T(">")>>),
      Tmpl("NamedType", <<L("Path", "TypeNameId", ".", 1)>>) >>
+\* a field name spelled like a built-in type is the common case in practice (date DATE) and the one a look-ahead can get wrong
+StructFieldId == Tmpl("Ident", <<LEAF("Name", "id", << Same("date"), Same("a"), P("`b c`", "b c") >>)>>)
 StructFieldT == << Tmpl("StructField", <<N("Type", "Type")>>),
-                   Tmpl("StructField", <<N("Ident", "Ident"), N("Type", "Type")>>) >>
+                   Tmpl("StructField", <<N("Ident", "StructFieldId"), N("Type", "Type")>>) >>
 TypeNameIdT == << Tmpl("Ident", <<LEAF("Name", "id", <<Same("MyProto"), Same("pkg"), P("`my.Enum`", "my.Enum")>>)>>) >>
 
 \* ---- atoms (level 0) ---------------------------------------------------------
@@ -203,7 +205,7 @@ ExprTemplates(nt) ==
     [] nt = "E2n" -> ET2n
     [] nt = "SelBase" -> SelBaseT [] nt = "SelBaseDot" -> SelBaseDotT [] nt = "SelBasePlain" -> SelBasePlainT [] nt = "NameExpr" -> NameExprT
     [] nt = "Ident" -> <<Ident>> [] nt = "FieldId" -> <<FieldId>> [] nt = "FuncId" -> <<FuncId>> [] nt = "StringLit" -> <<StringLit>>
-    [] nt = "Type" -> TypeTmpls [] nt = "StructField" -> StructFieldT [] nt = "TypeNameId" -> TypeNameIdT
+    [] nt = "Type" -> TypeTmpls [] nt = "StructField" -> StructFieldT [] nt = "StructFieldId" -> <<StructFieldId>> [] nt = "TypeNameId" -> TypeNameIdT
     [] nt = "FuncPath" -> FuncPathT [] nt = "Arg" -> ArgT [] nt = "ExprArg" -> ExprArgT [] nt = "NamedArg" -> NamedArgT
     [] nt = "NullHandling" -> NullHandlingT [] nt = "HavingModifier" -> HavingModT
     [] nt = "Hint" -> <<HintT>> [] nt = "HintRecord" -> HintRecordT [] nt = "HintKey" -> HintKeyT [] nt = "HintKeyId" -> HintKeyIdT
